@@ -7,6 +7,13 @@ E2 workflow (toy instance and secp256k1): for one wallet configuration the state
    format with empty scriptSigs (independent BIP174 reader), injected unknown key-values and global xpubs survive,
    finalize+final_tx succeeds and verifies under the reference consensus verifier iff >= m signers, and every
    partial signature replaced by a non-verifying one makes PSBT.parse raise.
+
+E1 forms (toy instance and secp256k1): one input class per case that the workflow engines never build - change outputs (output maps with
+   redeem/witness script and derivations, against maps assembled from the BIPs), input maps other software writes (both UTXO records,
+   non_witness_utxo only on segwit inputs, sighash-type field), bad partial signatures in maps without UTXO, update histories over all
+   subsets of the four lookups, hd_pubs dictionaries with caller-chosen keys, networks x account paths x parse(network=None) x base64
+   entry points, sign_with_private_keys, transaction parameters (fee, version, locktime, sequence, segwit-serialised funding tx).  In every
+   form a PSBT built in-process must serialise to exactly the bytes its own parse->serialize gives.
 """
 import itertools
 from io import BytesIO
@@ -57,78 +64,203 @@ class Wallet:
                 raise RuntimeError("no usable toy nonce")
 
             pecc.PrivateKey.deterministic_k = det_k
-        self.roots = [HDPrivateKey(pecc.PrivateKey(root_secret(i, toy)), chain_code=bytes([0x40 + i]) * 32) for i in range(n)]
-        self.acct = [NamedHDPublicKey.from_hd_priv(r, "m/45h") for r in self.roots]
+        net, acct = cfg.get("net", "mainnet"), cfg.get("acct", "m/45h")
+        self.net, self.acct_path = net, acct
+        self.roots = [HDPrivateKey(pecc.PrivateKey(root_secret(i, toy)), chain_code=bytes([0x40 + i]) * 32, network=net) for i in range(n)]
+        self.acct = [NamedHDPublicKey.from_hd_priv(r, acct) for r in self.roots]
+        self.xfps = [txref.h160(r.pub.sec())[:4] for r in self.roots]
         self.pubkey_lookup, self.redeem_lookup, self.witness_lookup = {}, {}, {}
         self.spks, self.scripts = [], []
+        # reference description of every wallet script (raw bytes assembled here from the BIPs, nothing taken from
+        # buidl.script): {"spk", "redeem", "witness", "keys": [(sec, fingerprint || path)]}; leaf_paths[k] = path of script k
+        self.ref_scripts, self.leaf_paths = [], []
+        self.change_lookup_keys = {"pubkey": [], "redeem": [], "witness": []}
         amount = 2000000
-        for k in range(nin):
+        nscripts = nin + (1 if cfg.get("change") else 0)
+        for k in range(nscripts):
+            is_change = k >= nin
             # child index: walk until the n child keys are pairwise distinct (collisions exist only on toy groups)
             j = k * 50
             while True:
-                named = [NamedHDPublicKey.from_hd_priv(r, f"m/45h/0/{j}") for r in self.roots]
+                named = [NamedHDPublicKey.from_hd_priv(r, f"{acct}/0/{j}") for r in self.roots]
                 if len({x.sec() for x in named}) == n:
                     break
                 j += 1
+            self.leaf_paths.append(f"{acct}/0/{j}")
             for x in named:
                 self.pubkey_lookup[x.sec()] = x
                 self.pubkey_lookup[x.hash160()] = x
+                if is_change:
+                    self.change_lookup_keys["pubkey"] += [x.sec(), x.hash160()]
             secs = sorted(x.sec() for x in named)
+            origin = {x.sec(): self.xfps[i] + path_bytes(f"{acct}/0/{j}") for i, x in enumerate(named)}
+            ref = {"redeem": None, "witness": None}
             if st == "p2pkh":
                 spk = P2PKHScriptPubKey(named[0].hash160())
+                ref["spk"] = b"\x76\xa9\x14" + txref.h160(named[0].sec()) + b"\x88\xac"
+                ref["keys"] = [(named[0].sec(), origin[named[0].sec()])]
             elif st == "p2wpkh":
                 spk = P2WPKHScriptPubKey(named[0].hash160())
+                ref["spk"] = b"\x00\x14" + txref.h160(named[0].sec())
+                ref["keys"] = [(named[0].sec(), origin[named[0].sec()])]
             elif st == "p2sh-p2wpkh":
                 redeem = RedeemScript([0, named[0].hash160()])
                 self.redeem_lookup[redeem.hash160()] = redeem
+                if is_change:
+                    self.change_lookup_keys["redeem"].append(redeem.hash160())
                 spk = redeem.script_pubkey()
+                ref["redeem"] = b"\x00\x14" + txref.h160(named[0].sec())
+                ref["spk"] = b"\xa9\x14" + txref.h160(ref["redeem"]) + b"\x87"
+                ref["keys"] = [(named[0].sec(), origin[named[0].sec()])]
             else:
                 cmds = [0x50 + m] + secs + [0x50 + n, 174]
+                ms = bytes([0x50 + m]) + b"".join(bytes([len(x)]) + x for x in secs) + bytes([0x50 + n, 0xAE])
+                ref["keys"] = [(x, origin[x]) for x in secs]
                 if st == "p2sh":
                     redeem = RedeemScript(cmds)
                     self.redeem_lookup[redeem.hash160()] = redeem
+                    if is_change:
+                        self.change_lookup_keys["redeem"].append(redeem.hash160())
                     spk = redeem.script_pubkey()
+                    ref["redeem"] = ms
+                    ref["spk"] = b"\xa9\x14" + txref.h160(ms) + b"\x87"
                 else:
                     ws = WitnessScript(cmds)
                     self.witness_lookup[ws.sha256()] = ws
+                    if is_change:
+                        self.change_lookup_keys["witness"].append(ws.sha256())
+                    ref["witness"] = ms
                     if st == "p2wsh":
                         spk = ws.script_pubkey()
+                        ref["spk"] = b"\x00\x20" + txref.sha256(ms)
                     else:
                         redeem = ws.script_pubkey().redeem_script()
                         self.redeem_lookup[redeem.hash160()] = redeem
+                        if is_change:
+                            self.change_lookup_keys["redeem"].append(redeem.hash160())
                         spk = redeem.script_pubkey()
-            self.spks.append(spk)
+                        ref["redeem"] = b"\x00\x20" + txref.sha256(ms)
+                        ref["spk"] = b"\xa9\x14" + txref.h160(ref["redeem"]) + b"\x87"
+            self.ref_scripts.append(ref)
+            if is_change:
+                self.change_spk = spk
+            else:
+                self.spks.append(spk)
         self.amount = amount
-        self.prev = Tx(1, [TxIn(b"\x77" * 32, 0)], [TxOut(amount, spk) for spk in self.spks], 0, network="mainnet", segwit=False)
+        self.prev = Tx(1, [TxIn(b"\x77" * 32, 0)], [TxOut(amount, spk) for spk in self.spks], 0, network=net, segwit=False)
+        prev_witness = []
+        if cfg.get("prevseg"):
+            # the funding transaction is itself a segwit transaction: non_witness_utxo then carries witness data
+            from buidl.witness import Witness
+
+            prev_witness = [b"\x30" + bytes(range(1, 71)), b"\x02" + b"\x5a" * 32]
+            self.prev.tx_ins[0].witness = Witness(list(prev_witness))
+            self.prev.segwit = True
         self.tx_lookup = {self.prev.hash(): self.prev}
         self.Tx, self.TxIn, self.TxOut = Tx, TxIn, TxOut
         self.P2WPKH = P2WPKHScriptPubKey
+        # the same two transactions in the reference representation (mc.ref.txref), built from the configuration only
+        self.ref_prev = {
+            "version": 1,
+            "ins": [{"prev": b"\x77" * 32, "index": 0, "script": b"", "seq": 0xFFFFFFFF, "witness": prev_witness}],
+            "outs": [{"amount": amount, "script": self.ref_scripts[k]["spk"]} for k in range(nin)],
+            "locktime": 0,
+            "segwit": bool(cfg.get("prevseg")),
+        }
+        prev_id = txref.dsha(txref.ser_stripped(self.ref_prev))[::-1]
+        seq = cfg.get("sequence")
+        self.ref_unsigned = {
+            "version": cfg.get("version", 2),
+            "ins": [{"prev": prev_id, "index": k, "script": b"", "seq": 0xFFFFFFFF if seq is None else seq, "witness": []} for k in range(nin)],
+            "outs": self._ref_outs(),
+            "locktime": cfg.get("locktime", 0),
+            "segwit": False,
+        }
+
+    CHANGE_AMOUNT = 700000
+
+    def _ref_outs(self):
+        total = self.amount * self.cfg["nin"] - self.cfg.get("fee", 5000)
+        foreign = b"\x00\x14" + b"\x31" * 20
+        if self.cfg.get("change"):
+            return [{"amount": total - self.CHANGE_AMOUNT, "script": foreign}, {"amount": self.CHANGE_AMOUNT, "script": self.ref_scripts[-1]["spk"]}]
+        return [{"amount": total, "script": foreign}]
+
+    def expected_maps(self):
+        """BIP174 input and output maps an Updater knowing every lookup must produce (as dicts key -> value)."""
+        ins, outs = [], []
+        legacy = self.cfg["stype"] in ("p2pkh", "p2sh")
+        for k in range(self.cfg["nin"]):
+            ref = self.ref_scripts[k]
+            d = {b"\x00": txref.ser_tx(self.ref_prev)} if legacy else {b"\x01": txref.ser_out(self.ref_prev["outs"][k])}
+            if ref["redeem"] is not None:
+                d[b"\x04"] = ref["redeem"]
+            if ref["witness"] is not None:
+                d[b"\x05"] = ref["witness"]
+            for sec, org in ref["keys"]:
+                d[b"\x06" + sec] = org
+            ins.append(d)
+        outs.append({})
+        if self.cfg.get("change"):
+            ref = self.ref_scripts[-1]
+            d = {}
+            if ref["redeem"] is not None:
+                d[b"\x00"] = ref["redeem"]
+            if ref["witness"] is not None:
+                d[b"\x01"] = ref["witness"]
+            for sec, org in ref["keys"]:
+                d[b"\x02" + sec] = org
+            outs.append(d)
+        return ins, outs
 
     def fresh_tx(self):
         nin = self.cfg["nin"]
-        tins = [self.TxIn(self.prev.hash(), k) for k in range(nin)]
-        touts = [self.TxOut(self.amount * nin - 5000, self.P2WPKH(b"\x31" * 20))]
-        return self.Tx(2, tins, touts, 0, network="mainnet", segwit=bool(self.cfg.get("segflag")))
+        seq = self.cfg.get("sequence")
+        tins = [self.TxIn(self.prev.hash(), k, sequence=seq) for k in range(nin)]
+        total = self.amount * nin - self.cfg.get("fee", 5000)
+        if self.cfg.get("change"):
+            touts = [self.TxOut(total - self.CHANGE_AMOUNT, self.P2WPKH(b"\x31" * 20)), self.TxOut(self.CHANGE_AMOUNT, self.change_spk)]
+        else:
+            touts = [self.TxOut(total, self.P2WPKH(b"\x31" * 20))]
+        return self.Tx(self.cfg.get("version", 2), tins, touts, self.cfg.get("locktime", 0), network=self.net, segwit=bool(self.cfg.get("segflag")))
 
     def hd_pubs(self):
         from buidl.psbt import NamedHDPublicKey
 
         if self.cfg["stype"] not in MULTI:
             return {}
-        accts = [NamedHDPublicKey.from_hd_priv(r, "m/45h") for r in self.roots]
-        return {a.serialize(): a for a in accts}
+        accts = [NamedHDPublicKey.from_hd_priv(r, self.acct_path) for r in self.roots]
+        style = self.cfg.get("hdkeys", "serialize")
+        if style == "serialize":
+            return {a.serialize(): a for a in accts}
+        if style == "raw":
+            return {a.raw_serialize(): a for a in accts}
+        if style == "xpubstr":
+            return {a.xpub(): a for a in accts}
+        # caller-chosen labels whose order is the reverse of the order of the xpubs themselves
+        ranked = sorted(accts, key=lambda a: a.raw_serialize())
+        return {"signer-%d" % (len(ranked) - 1 - i): a for i, a in enumerate(ranked)}
 
-    def create(self):
+    def lookups(self, without_change=False):
+        pk, rl, wl = dict(self.pubkey_lookup), dict(self.redeem_lookup), dict(self.witness_lookup)
+        if without_change:
+            for k in self.change_lookup_keys["pubkey"]:
+                pk.pop(k, None)
+            for k in self.change_lookup_keys["redeem"]:
+                rl.pop(k, None)
+            for k in self.change_lookup_keys["witness"]:
+                wl.pop(k, None)
+        return {"tx_lookup": dict(self.tx_lookup), "pubkey_lookup": pk, "redeem_lookup": rl, "witness_lookup": wl}
+
+    def create(self, without_change=False):
         from buidl.psbt import PSBT
 
-        return PSBT.create(
-            self.fresh_tx(),
-            tx_lookup=self.tx_lookup,
-            pubkey_lookup=self.pubkey_lookup,
-            redeem_lookup=self.redeem_lookup,
-            witness_lookup=self.witness_lookup,
-            hd_pubs=self.hd_pubs(),
-        )
+        return PSBT.create(self.fresh_tx(), hd_pubs=self.hd_pubs(), **self.lookups(without_change))
+
+    def bare(self):
+        from buidl.psbt import PSBT
+
+        return PSBT.create(self.fresh_tx())
 
     def create_then_update(self):
         from buidl.psbt import PSBT
@@ -139,6 +271,10 @@ class Wallet:
         if hp:
             p.hd_pubs = hp
         return p
+
+    def leaf_private_keys(self, i):
+        """private keys of signer i for every input script"""
+        return [self.roots[i].traverse(self.leaf_paths[k]).private_key for k in range(self.cfg["nin"])]
 
     def built(self, subset, order=None):
         p = self.create()
@@ -159,10 +295,20 @@ def inject_unknown(raw):
     return psbtref.serialize(p)
 
 
-def parse_lib(raw):
+def parse_lib(raw, network="mainnet"):
     from buidl.psbt import PSBT
 
-    return PSBT.parse(BytesIO(raw), network="mainnet")
+    return PSBT.parse(BytesIO(raw), network=network)
+
+
+def path_bytes(path):
+    """'m/45h/0/3' -> concatenated little-endian uint32 (BIP174 derivation path encoding)"""
+    import struct
+
+    out = b""
+    for c in path.split("/")[1:]:
+        out += struct.pack("<I", (int(c[:-1]) | 0x80000000) if c[-1] in "h'" else int(c))
+    return out
 
 
 def subsets(n):
@@ -484,9 +630,669 @@ def psbt_digest(W, cfg, tx, ii, ht=1):
     return int.from_bytes(txref.sighash_bip143(utx, ii, sc, W.amount, ht), "big")
 
 
+# ---------------------------------------------------------------------------------------------------------------
+# "forms" engines: input classes of the statement the workflow engines never build (one class per case)
+# ---------------------------------------------------------------------------------------------------------------
+SEGWIT_TYPES = ("p2wpkh", "p2sh-p2wpkh", "p2wsh", "p2sh-p2wsh")
+NET_PATHS = ("m/45h", "m/48h/0h/0h/2h", "m/48h/1h/0h/2h")
+LOOKUP_NAMES = ("tx_lookup", "pubkey_lookup", "redeem_lookup", "witness_lookup")
+
+
+FORMS_RULE = (
+    "one input class per case, each decided against the reference BIP174 container reader/writer (mc.ref.psbtref), reference tx codec and "
+    "consensus verifier; in every form each PSBT built in-process must serialise to exactly the bytes its own parse->serialize gives. "
+    "change: the spend pays change back to the wallet - unsigned tx, every input map and every output map of create(lookups) equal the maps "
+    "assembled from the BIPs, create+update == create(lookups), the same PSBT with the change output map written by the reference writer "
+    "parses to the same bytes, every signing order, combine of every ordered pair of signer subsets in both directions with the other PSBT "
+    "as is and with its output maps emptied gives the canonical PSBT of the union, finalize+final_tx reference-valid iff >= m signers. "
+    "utxo-both / utxo-nwu-only (segwit types): every state rewritten so that each input carries non_witness_utxo in addition to / instead of "
+    "witness_utxo; sighash-field: PSBT_IN_SIGHASH_TYPE=1 added to every state (0x81, 0x83, 0x02 on the unsigned state, codec only) - parse "
+    "must accept, keep every key-value pair, produce bytes it can load again idempotently; the remaining signers sign the parsed PSBT, "
+    "the result loads and finalises to a reference-valid tx iff >= m; combined with every canonical state in both directions gives one "
+    "loadable union. noutxo-badsig: every partial signature of every state replaced by (r, s+1) with the UTXO fields of that input (of all "
+    "inputs) removed must make PSBT.parse fail. update: bare create, update(L), update(all) == create(lookups) for every subset L of the "
+    "four lookups; on every parsed state update(L) removes no key-value pair, stays loadable and idempotent, twice == once. hdkeys: "
+    "hd_pubs dict keyed by raw xpub / xpub string / labels in reverse order. network: wallet on mainnet/testnet x account path m/45h, "
+    "m/48h/0h/0h/2h, m/48h/1h/0h/2h x parse network {default None, the wallet's} x {bytes, base64 entry points}: identical bytes. swpk: "
+    "sign_with_private_keys with the leaf keys of every signer subset in every order, with and without a foreign key, equals sign(). "
+    "txparams: fee {2000, 5000, 123456} x version {1, 2} x locktime {0, 500000} x sequence {0xffffffff, 0xfffffffd} x funding tx "
+    "legacy/segwit-serialised: maps equal the reference construction, extracted tx reference-valid with exactly the configured fields."
+)
+
+
+def gen_forms(toy):
+    def g(tier, seed):
+        cases = []
+        thorough = tier == "thorough"
+
+        def add(cfg, form, **kw):
+            st, m, n, nin, sf = cfg
+            c = {"stype": st, "m": m, "n": n, "nin": nin, "segflag": sf, "form": form}
+            c.update(kw)
+            if toy:
+                c["toy"] = list(toy)
+            cases.append(c)
+
+        def txparam_variants(full):
+            out = []
+            for fee in (2000, 5000, 123456) if full else (5000,):
+                for ver in (1, 2):
+                    for lt in (0, 500000):
+                        for seq in (0xFFFFFFFF, 0xFFFFFFFD):
+                            for ps in (0, 1):
+                                out.append({"fee": fee, "version": ver, "locktime": lt, "sequence": seq, "prevseg": ps})
+            if not full:
+                out += [{"fee": f, "version": 2, "locktime": 0, "sequence": 0xFFFFFFFF, "prevseg": 0} for f in (2000, 123456)]
+            return out
+
+        if toy:
+            cfgs = []
+            for st in STYPES:
+                if st in MULTI:
+                    shapes = [(2, 3, 1), (1, 2, 2)] if not thorough else [(m, n, nin) for n in (1, 2, 3) for m in range(1, n + 1) for nin in (1, 2)] + [(2, 4, 1), (3, 4, 1), (2, 3, 3)]
+                else:
+                    shapes = [(1, 1, 2)] if not thorough else [(1, 1, 1), (1, 1, 2), (1, 1, 3)]
+                for m, n, nin in shapes:
+                    cfgs.append((st, m, n, nin, (m + nin) % 2))
+            first = {}
+            for cfg in cfgs:
+                st = cfg[0]
+                first.setdefault(st, cfg)
+                add(cfg, "change")
+                if thorough:
+                    add(cfg[:4] + (1 - cfg[4],), "change")
+                add(cfg, "update")
+                add(cfg, "swpk")
+                add(cfg, "noutxo-badsig")
+                add(cfg, "sighash-field")
+                if st in SEGWIT_TYPES:
+                    add(cfg, "utxo-both")
+                    add(cfg, "utxo-nwu-only")
+                if st in MULTI:
+                    for style in ("raw", "xpubstr", "revlabel"):
+                        add(cfg, "hdkeys", style=style)
+                if st in MULTI or st == "p2wpkh":
+                    if thorough or cfg == first[st]:
+                        for net in ("mainnet", "testnet"):
+                            for acct in NET_PATHS:
+                                add(cfg, "network", net=net, acct=acct)
+                if thorough or cfg == first[st]:
+                    for v in txparam_variants(thorough):
+                        add(cfg, "txparams", **v)
+        else:
+            if not thorough:
+                # (the cheapest case first: chunk 0 is the one that is executed twice by the order-perturbed replay)
+                plan = [(("p2wsh", 2, 2, 1, 1), ("noutxo-badsig", "utxo-both", "utxo-nwu-only")), (("p2sh-p2wpkh", 1, 1, 1, 0), ("change",))]
+            else:
+                allf = ("change", "update", "swpk", "noutxo-badsig", "sighash-field", "utxo-both", "utxo-nwu-only", "hdkeys", "network", "txparams")
+                plan = [((st, 2, 3, 1, 1) if st in MULTI else (st, 1, 1, 2, 0), allf) for st in STYPES]
+            for cfg, forms in plan:
+                st = cfg[0]
+                for f in forms:
+                    if f in ("utxo-both", "utxo-nwu-only") and st not in SEGWIT_TYPES:
+                        continue
+                    if f == "hdkeys":
+                        if st in MULTI:
+                            add(cfg, f, style="revlabel")
+                    elif f == "network":
+                        if st in MULTI:
+                            for net, acct in (("testnet", "m/45h"), ("mainnet", "m/48h/1h/0h/2h"), ("testnet", "m/48h/1h/0h/2h")):
+                                add(cfg, f, net=net, acct=acct)
+                    elif f == "txparams":
+                        for v in ({"fee": 2000, "version": 1, "locktime": 500000, "sequence": 0xFFFFFFFD, "prevseg": 1}, {"fee": 123456, "version": 2, "locktime": 0, "sequence": 0xFFFFFFFF, "prevseg": 1}):
+                            add(cfg, f, **v)
+                    elif not thorough:
+                        add(cfg, f, lite=1)
+                    else:
+                        add(cfg, f)
+        return cases
+
+    return g
+
+
+def kv_lost(before, after):
+    """(map name, key) of every key-value pair of PSBT bytes `before` that PSBT bytes `after` does not carry."""
+    a, b = psbtref.parse(before), psbtref.parse(after)
+    lost = []
+    for name, ma, mb in [("global", a["global"], b["global"])] + [(f"in{i}", x, y) for i, (x, y) in enumerate(zip(a["ins"], b["ins"]))] + [(f"out{i}", x, y) for i, (x, y) in enumerate(zip(a["outs"], b["outs"]))]:
+        have = set(mb)
+        lost += [(name, k) for k, v in ma if (k, v) not in have]
+    return lost
+
+
+def lost_fingerprint(lost, default):
+    """one defect, one fingerprint: witness_utxo dropped from an input map (the serialiser writes it only when the input has no
+    non_witness_utxo) is the same root cause in every form; anything else keeps the form's own class"""
+    if lost and all(name.startswith("in") and k == b"\x01" for name, k in lost):
+        return "witness-utxo-dropped-next-to-non-witness-utxo"
+    return default
+
+
+def lost_classes(lost):
+    return sorted({f"{name.rstrip('0123456789')}-key-{k[:1].hex()}" for name, k in lost})
+
+
+def run_forms(case):
+    import base64
+    import struct
+
+    res = Res()
+    toy = tuple(case["toy"]) if case.get("toy") else None
+    if toy:
+        from buidl import pecc
+
+        assert current_toy() == toy and pecc.N == toy[1]
+    curve = ec.toy_curve(*toy) if toy else ec.SECP
+    eng = f"forms-toy{toy[0]}" if toy else "forms-real"
+    form = case["form"]
+    cfg = {k: case[k] for k in ("stype", "m", "n", "nin", "segflag")}
+    if form in ("change", "update"):
+        cfg["change"] = 1
+    if form == "network":
+        cfg["net"], cfg["acct"] = case["net"], case["acct"]
+    if form == "hdkeys":
+        cfg["hdkeys"] = case["style"]
+    if form == "txparams":
+        for k in ("fee", "version", "locktime", "sequence", "prevseg"):
+            cfg[k] = case[k]
+    st, m, n, nin = cfg["stype"], cfg["m"], cfg["n"], cfg["nin"]
+    need = m if st in MULTI else 1
+    net = cfg.get("net", "mainnet")
+    label = f"{st}-{m}of{n}-{nin}in/{form}"
+    vc = {"engine": eng, "case": case}
+    if toy:
+        vc["toy"] = list(toy)
+
+    def V(cls, observed, expected, what):
+        res.violation(f"C10/{eng}/{cls}", vc, observed, expected, f"{label}: {what}")
+
+    def P(raw, network=net):
+        return parse_lib(raw, network)
+
+    W = attempt(Wallet, cfg, toy)
+    if isinstance(W, Rejected):
+        if toy:
+            res.ok("degenerate toy wallet (zero child key)")
+            return res
+        raise RuntimeError("wallet construction failed on the real curve")
+    full = frozenset(range(n))
+    all_subsets = subsets(n)
+    spent = [(W.amount, W.ref_scripts[i]["spk"]) for i in range(nin)]
+
+    base = attempt(W.create)
+    if isinstance(base, Rejected):
+        cls = f"change-output/create-rejected/{st}" if cfg.get("change") else f"create/{st}"
+        V(cls, repr(base), "PSBT", "PSBT.create with every lookup fails" + (" when the transaction pays change back to the wallet" if cfg.get("change") else ""))
+        base = None
+    raw0 = attempt(base.serialize) if base is not None else None
+    states = {}
+
+    def state(S):
+        """serialised PSBT built in-process and signed by S (ascending); first use also checks built == re-parsed"""
+        S = frozenset(S)
+        if S in states:
+            return states[S]
+        if base is None:
+            states[S] = None
+            return None
+        raw = raw0 if not S else attempt(lambda: W.built(S).serialize())
+        if not isinstance(raw, bytes):
+            V(f"sign/{st}", repr(raw), "signed", f"signing with subset {sorted(S)} fails")
+            states[S] = None
+            return None
+        again = attempt(lambda: P(raw).serialize())
+        if again != raw:
+            kind = "unloadable"
+            if isinstance(again, bytes):
+                a, b = psbtref.parse(raw), psbtref.parse(again)
+                same_content = sorted(a["global"]) == sorted(b["global"]) and a["ins"] == b["ins"] and a["outs"] == b["outs"]
+                kind = "global-xpub-order" if same_content else "content"
+            V(f"built-reserialize-differs/{kind}", repr(again)[:80] if not isinstance(again, bytes) else again[:60].hex(), "the bytes the built object serialised to", f"a PSBT built in-process (signers {sorted(S)}) serialises to bytes that parse->serialize does not reproduce")
+        else:
+            res.ok("built PSBT == its own re-parse, byte for byte", nontrivial=(label, "built", tuple(sorted(S))))
+        states[S] = raw
+        return raw
+
+    def finalize_extract(raw):
+        p = P(raw)
+        p.finalize()
+        return p.final_tx()
+
+    def check_final(raw, nsig, cls, what):
+        """finalize + final_tx on parse(raw): must give a reference-valid tx with the configured fields iff nsig >= need"""
+        ft = attempt(finalize_extract, raw)
+        if nsig < need:
+            if not isinstance(ft, Rejected):
+                V(f"{cls}/finalize-below-threshold", "final tx extracted", "failure", f"{what}: only {nsig} of {need} required signers but a final transaction is extracted")
+            else:
+                res.ok("below threshold: refused")
+            return
+        if isinstance(ft, Rejected):
+            V(f"{cls}/finalize-fails", repr(ft), "final tx", f"{what}: {nsig} >= {need} signers but finalize/final_tx fails")
+            return
+        atx = abstract(ft)
+        bad = [i for i in range(nin) if not interp.verify_input(atx, i, spent, curve)]
+        exp = W.ref_unsigned
+        fields = (atx["version"], atx["locktime"], [i["seq"] for i in atx["ins"]], [(i["prev"], i["index"]) for i in atx["ins"]], atx["outs"])
+        want = (exp["version"], exp["locktime"], [i["seq"] for i in exp["ins"]], [(i["prev"], i["index"]) for i in exp["ins"]], exp["outs"])
+        if bad:
+            V(f"{cls}/final-tx-invalid", f"inputs {bad} invalid", "valid", f"{what}: extracted transaction does not verify under the reference consensus verifier")
+        elif fields != want:
+            V(f"{cls}/final-tx-fields", fields, want, f"{what}: extracted transaction differs from the configured one (version/locktime/sequence/outpoints/outputs)")
+        else:
+            res.ok("finalize+extract: reference-valid, configured fields", nontrivial=(label, what))
+
+    def check_maps(raw, cls_out):
+        """global unsigned tx, input maps and output maps of a fully updated PSBT against the reference construction"""
+        r = psbtref.parse(raw)
+        exp_ins, exp_outs = W.expected_maps()
+        if txref.ser_stripped(r["tx"]) != txref.ser_stripped(W.ref_unsigned):
+            V("create-update/unsigned-tx-differs", txref.ser_stripped(r["tx"]).hex(), txref.ser_stripped(W.ref_unsigned).hex(), "embedded unsigned transaction is not the configured one")
+            return
+        got_ins = [{k: v for k, v in mm if k[:1] != b"\x02"} for mm in r["ins"]]
+        if got_ins != exp_ins:
+            i = [a != b for a, b in zip(got_ins, exp_ins)].index(True)
+            V(f"create-update/input-map-differs/{st}", sorted(got_ins[i].items()), sorted(exp_ins[i].items()), f"input map {i} of the updated PSBT is not the one BIP174 prescribes")
+            return
+        got_outs = [dict(mm) for mm in r["outs"]]
+        if got_outs != exp_outs:
+            i = [a != b for a, b in zip(got_outs, exp_outs)].index(True)
+            V(f"{cls_out}/{st}", sorted(got_outs[i].items()), sorted(exp_outs[i].items()), f"output map {i} of the updated PSBT is not the one BIP174 prescribes")
+            return
+        res.ok("updated PSBT: unsigned tx, input maps, output maps == reference construction", nontrivial=(label, "maps"))
+
+    def nsigs(raw):
+        return [sum(1 for k, _ in mm if k[:1] == b"\x02") for mm in psbtref.parse(raw)["ins"]]
+
+    # =========================================================================================== change
+    if form == "change":
+        if raw0 is not None:
+            check_maps(raw0, "change-output/map-differs")
+            cu = attempt(lambda: W.create_then_update().serialize())
+            if cu != raw0:
+                V(f"create-update-differs/{st}", cu if not isinstance(cu, bytes) else cu[:80].hex(), raw0[:80].hex(), "bare create followed by update(lookups) differs from create(lookups)")
+            else:
+                res.ok("create+update == create(lookups)", nontrivial=(label, "cu"))
+        # the same PSBT as another Updater would write it: the change output map filled in through the reference writer
+        nochange = attempt(lambda: W.create(without_change=True).serialize())
+        if isinstance(nochange, bytes):
+            r = psbtref.parse(nochange)
+            exp_outs = W.expected_maps()[1]
+            r["outs"] = [sorted(d.items()) for d in exp_outs]
+            x = psbtref.serialize(r)
+            got = attempt(lambda: P(x).serialize())
+            if isinstance(got, Rejected):
+                V(f"change-output/parse-rejected/{st}", repr(got), "parses", "a PSBT whose change output carries redeem/witness script and BIP32 derivations (written by the reference BIP174 writer) is rejected by PSBT.parse")
+            elif raw0 is not None and got != raw0:
+                V(f"change-output/parse-differs/{st}", got[:80].hex(), raw0[:80].hex(), "reference-written change output map parses to a different PSBT than create(lookups)")
+            else:
+                res.ok("reference-written change output map parses", nontrivial=(label, "refchange"))
+        else:
+            V(f"create/{st}", repr(nochange), "PSBT", "PSBT.create without change metadata fails")
+        if raw0 is None:
+            return res
+        sub = all_subsets if toy else list(dict.fromkeys([frozenset(), frozenset([0]), frozenset([n - 1]), full]))
+        canon = {S: state(S) for S in sub}
+        if any(v is None for v in canon.values()):
+            return res
+        for order in itertools.permutations(range(n)):
+            if list(order) == sorted(order):
+                continue
+            raw = attempt(lambda: W.built(full, order).serialize())
+            if raw != canon[full]:
+                V("change-output/sign-order", repr(raw)[:80], "canonical", f"signing order {list(order)} gives a different PSBT")
+            else:
+                res.ok("sign order -> canonical", nontrivial=(label, "order", order))
+        for S in sub:
+            check_final(canon[S], len(S), "change-output", f"subset {sorted(S)}")
+            for T in sub:
+                U = S | T
+                if U not in canon:
+                    continue
+                # T once as is, once with its output maps emptied (a signer that strips output metadata)
+                rT = psbtref.parse(canon[T])
+                rT["outs"] = [[] for _ in rT["outs"]]
+                for tname, tb in (("full", canon[T]), ("outputs-stripped", psbtref.serialize(rT))):
+                    for direction in ("a<-b", "b<-a"):
+
+                        def f():
+                            a, b = P(canon[S]), P(tb)
+                            if direction == "a<-b":
+                                a.combine(b)
+                                return a.serialize()
+                            b.combine(a)
+                            return b.serialize()
+
+                        got = attempt(f)
+                        res.transitions += 1
+                        if got != canon[U]:
+                            V("change-output/combine", repr(got)[:80] if not isinstance(got, bytes) else got[:60].hex(), canon[U][:60].hex(), f"combine {direction} of {sorted(S)} with {tname} {sorted(T)} does not give the canonical PSBT of {sorted(U)}")
+                        else:
+                            res.ok("combine -> canonical", nontrivial=(label, "comb", tuple(sorted(S)), tuple(sorted(T)), tname, direction))
+        return res
+
+    if raw0 is None:
+        return res
+
+    # =========================================================================================== hdkeys
+    if form == "hdkeys":
+        for S in (frozenset(), frozenset([0])):
+            raw = state(S)
+            if raw is None:
+                continue
+            nx = sum(1 for kk, _ in psbtref.parse(raw)["global"] if kk[:1] == b"\x01")
+            if nx != n:
+                V("global-xpubs-lost", nx, n, "global xpubs missing from the built PSBT")
+            canonical = attempt(lambda: P(raw).serialize())
+            for direction in ("built<-parsed", "parsed<-built"):
+
+                def f():
+                    a, b = (W.built(S) if S else W.create()), P(raw)
+                    if direction == "built<-parsed":
+                        a.combine(b)
+                        return a.serialize()
+                    b.combine(a)
+                    return b.serialize()
+
+                got = attempt(f)
+                if isinstance(canonical, bytes) and got != canonical:
+                    V(f"hdkeys/combine/{direction}", repr(got)[:80], "canonical", f"combine {direction} with hd_pubs keyed by {case['style']} does not give the re-parsed PSBT")
+                else:
+                    res.ok("combine with caller-keyed hd_pubs -> canonical", nontrivial=(label, case["style"], direction, tuple(S)))
+        return res
+
+    # =========================================================================================== foreign input maps
+    if form in ("utxo-both", "utxo-nwu-only", "sighash-field"):
+        prev_raw = txref.ser_tx(W.ref_prev)
+
+        def rewrite(raw, value=1):
+            r = psbtref.parse(raw)
+            for ii, mm in enumerate(r["ins"]):
+                if form == "utxo-both":
+                    assert any(k == b"\x01" for k, _ in mm) and not any(k == b"\x00" for k, _ in mm)
+                    mm.insert(0, (b"\x00", prev_raw))
+                elif form == "utxo-nwu-only":
+                    assert any(k == b"\x01" for k, _ in mm)
+                    r["ins"][ii] = [((b"\x00", prev_raw) if k == b"\x01" else (k, v)) for k, v in mm]
+                else:
+                    mm.append((b"\x03", struct.pack("<I", value)))
+            return psbtref.serialize(r)
+
+        sub = all_subsets if toy else list(dict.fromkeys([frozenset(), full] if case.get("lite") else [frozenset(), frozenset([0]), full]))
+        canon = {S: state(S) for S in sub}
+        if any(v is None for v in canon.values()):
+            return res
+        F = f"foreign-input-map/{form}"
+
+        def codec(x, what):
+            p = attempt(P, x)
+            if isinstance(p, Rejected):
+                V(f"{F}/honest-rejected", repr(p), "parses", f"{what}: BIP174-valid PSBT with honest content is rejected by PSBT.parse")
+                return False
+            s1 = attempt(p.serialize)
+            if not isinstance(s1, bytes):
+                V(f"{F}/serialize-fails", repr(s1), "bytes", f"{what}: parsed PSBT cannot be serialised")
+                return False
+            lost = kv_lost(x, s1)
+            if lost:
+                V(lost_fingerprint(lost, f"{F}/field-lost"), lost_classes(lost), "every key-value pair kept", f"{what}: parse->serialize drops key-value pairs")
+            again = attempt(lambda: P(s1).serialize())
+            if isinstance(again, Rejected):
+                V(f"{F}/own-output-rejected", repr(again), "parses", f"{what}: the library cannot load the PSBT it serialised")
+                return False
+            if again != s1:
+                V(f"{F}/not-idempotent", again[:60].hex(), s1[:60].hex(), f"{what}: re-serialisation changes the bytes")
+                return False
+            if not lost:
+                res.ok("foreign input map: accepted, lossless, own output loadable, idempotent", nontrivial=(label, what))
+            return True
+
+        if form == "sighash-field":
+            for value in (0x81, 0x83, 0x02):
+                codec(rewrite(canon[frozenset()], value), f"unsigned, sighash type {value:#x}")
+        for S in sub:
+            x = rewrite(canon[S])
+            what = f"signers {sorted(S)}"
+            if not codec(x, what):
+                continue
+            # finish the workflow from the foreign form: below threshold refused, then the missing signers sign
+            check_final(x, len(S), F, what)
+
+            def complete():
+                q = P(x)
+                for i in sorted(full - S):
+                    if not q.sign(W.roots[i]):
+                        raise RuntimeError("sign returned False")
+                return q.serialize()
+
+            s2 = attempt(complete)
+            if isinstance(s2, Rejected):
+                V(f"{F}/sign-fails", repr(s2), "signed", f"{what}: the remaining signers cannot sign the parsed PSBT")
+                continue
+            if nsigs(s2) != [n if st in MULTI else 1] * nin:
+                V(f"{F}/sign-fails", nsigs(s2), [n] * nin, f"{what}: wrong number of partial signatures after the remaining signers signed")
+                continue
+            back = attempt(lambda: P(s2).serialize())
+            if back != s2:
+                V(f"{F}/own-output-rejected", repr(back)[:80], "same bytes", f"{what}: after the remaining signers signed, the library cannot load (or does not reproduce) the PSBT it serialised")
+                continue
+            check_final(s2, n, F, what + " + remaining signers")
+            for T in sub:
+
+                def comb(first):
+                    a, b = P(x), P(canon[T])
+                    if first == "foreign<-canonical":
+                        a.combine(b)
+                        return a.serialize()
+                    b.combine(a)
+                    return b.serialize()
+
+                g1, g2 = attempt(comb, "foreign<-canonical"), attempt(comb, "canonical<-foreign")
+                res.transitions += 2
+                U = S | T
+                okc = isinstance(g1, bytes) and g1 == g2 and nsigs(g1) == [(len(U) if st in MULTI else min(1, len(U)))] * nin
+                if okc:
+                    okc = attempt(lambda: P(g1).serialize()) == g1
+                lost = kv_lost(x, g1) + kv_lost(canon[T], g1) if okc else []
+                if lost:
+                    V(lost_fingerprint(lost, f"{F}/combine"), lost_classes(lost), "every key-value pair of both PSBTs kept", f"{what} combined with canonical {sorted(T)}: the combined PSBT drops key-value pairs")
+                if not okc:
+                    V(f"{F}/combine", [repr(g1)[:60], repr(g2)[:60]], "same loadable PSBT holding the union", f"{what} combined with canonical {sorted(T)}: result depends on the direction, loses fields or cannot be loaded")
+                else:
+                    res.ok("foreign form combine: direction-independent union, loadable", nontrivial=(label, "comb", tuple(sorted(S)), tuple(sorted(T))))
+                    check_final(g1, len(U), F, f"{what} combined with {sorted(T)}")
+        return res
+
+    # =========================================================================================== bad sig, no UTXO
+    if form == "noutxo-badsig":
+        sub = [S for S in (all_subsets if toy else list(dict.fromkeys([full] if case.get("lite") else [frozenset([0]), full]))) if S]
+        for S in sub:
+            raw = state(S)
+            if raw is None:
+                continue
+            r = psbtref.parse(raw)
+            for ii, mm in enumerate(r["ins"]):
+                for j, (kk, vv) in enumerate(mm):
+                    if kk[:1] != b"\x02":
+                        continue
+                    rs = ec.der_parse_strict(vv[:-1])
+                    if rs is None:
+                        continue
+                    s_new = (rs[1] % (curve.n - 1)) + 1
+                    nv = ec.der_sig(rs[0], s_new if s_new != rs[1] else 1) + vv[-1:]
+                    Q = curve.parse_sec(kk[1:])
+                    z = psbt_digest(W, cfg, r["tx"], ii, vv[-1])
+                    nrs = ec.der_parse_strict(nv[:-1])
+                    if Q is not None and nrs and curve.ecdsa_verify(Q, z, nrs[0], nrs[1]):
+                        res.ok("altered partial signature still verifies (toy collision): not asserted")
+                        continue
+                    for which in ("this-input", "all-inputs"):
+                        r2 = psbtref.parse(raw)
+                        r2["ins"][ii][j] = (kk, nv)
+                        for i2 in range(nin):
+                            if which == "all-inputs" or i2 == ii:
+                                r2["ins"][i2] = [(k, v) for k, v in r2["ins"][i2] if k not in (b"\x00", b"\x01")]
+                        got = attempt(P, psbtref.serialize(r2))
+                        if not isinstance(got, Rejected):
+                            V("badsig-without-utxo-accepted", "parsed", "rejected", f"signers {sorted(S)}: a partial signature that does not verify is accepted at load when the input map carries no UTXO ({which} stripped)")
+                        else:
+                            res.ok("bad partial signature without UTXO rejected at load", nontrivial=(label, tuple(sorted(S)), ii, j, which))
+        return res
+
+    # =========================================================================================== update histories
+    if form == "update":
+        lk = W.lookups()
+        Ls = [tuple(c) for r_ in range(5) for c in itertools.combinations(LOOKUP_NAMES, r_)]
+        if not toy:
+            Ls = [L for L in Ls if len(L) in (0, 3, 4)]
+
+        def args(L):
+            return {name: (lk[name] if name in L else {}) for name in LOOKUP_NAMES}
+
+        for L in Ls:
+            # staged updaters: a first updater knowing only L, then one knowing everything
+            def staged():
+                p = W.bare()
+                p.update(**args(L))
+                p.update(**lk)
+                hp = W.hd_pubs()
+                if hp:
+                    p.hd_pubs = hp
+                return p.serialize()
+
+            got = attempt(staged)
+            if got != raw0:
+                V("update/staged-differs", repr(got)[:80] if not isinstance(got, bytes) else lost_classes(kv_lost(raw0, got)) or got[:60].hex(), "create(lookups)", f"update({'+'.join(L) or 'nothing'}) then update(everything) on a bare PSBT differs from create(lookups)")
+            else:
+                res.ok("staged update == create(lookups)", nontrivial=(label, "staged", L))
+        for S in (all_subsets if toy else list(dict.fromkeys([frozenset(), full]))):
+            raw = state(S)
+            if raw is None:
+                continue
+            for L in Ls:
+                what = f"signers {sorted(S)}, update({'+'.join(L) or 'nothing'})"
+
+                def upd(times):
+                    q = P(raw)
+                    for _ in range(times):
+                        q.update(**args(L))
+                    return q.serialize()
+
+                s1 = attempt(upd, 1)
+                res.transitions += 1
+                if isinstance(s1, Rejected):
+                    V("update/raises", repr(s1), "updated", f"{what} on the parsed complete PSBT raises")
+                    continue
+                lost = kv_lost(raw, s1)
+                again = attempt(lambda: P(s1).serialize())
+                if lost:
+                    V("update/field-erased", lost_classes(lost), "every key-value pair kept", f"{what} removes key-value pairs from the PSBT")
+                if isinstance(again, Rejected):
+                    V("update/result-not-loadable", repr(again), "parses", f"{what}: the library cannot load the updated PSBT it serialised")
+                elif again != s1:
+                    V("update/result-not-idempotent", again[:60].hex(), s1[:60].hex(), f"{what}: re-serialisation changes the bytes")
+                if lost or again != s1:
+                    continue
+                s2 = attempt(upd, 2)
+                if s2 != s1:
+                    V("update/not-idempotent", repr(s2)[:80], "same as one update", f"{what} applied twice differs from once")
+                else:
+                    res.ok("update on complete PSBT: monotone, loadable, idempotent", nontrivial=(label, tuple(sorted(S)), L))
+        return res
+
+    # =========================================================================================== network / base64
+    if form == "network":
+        from buidl.psbt import PSBT
+
+        for S in (frozenset(), frozenset([0])):
+            raw = state(S)
+            if raw is None:
+                continue
+            b64 = attempt(lambda: (W.built(S) if S else W.create()).serialize_base64())
+            if b64 != base64.b64encode(raw).decode():
+                V("base64/encode", repr(b64)[:80], "RFC 4648 base64 of serialize()", "serialize_base64 is not the base64 of serialize")
+            for pn in (None, net):
+                cls = "network/default-network-rewrites-psbt" if pn is None else "network/explicit-network-rewrites-psbt"
+                for entry in ("bytes", "base64"):
+                    if entry == "bytes":
+                        got = attempt(lambda: (PSBT.parse(BytesIO(raw)) if pn is None else PSBT.parse(BytesIO(raw), network=pn)).serialize())
+                    else:
+                        b = base64.b64encode(raw).decode()
+                        got = attempt(lambda: base64.b64decode((PSBT.parse_base64(b) if pn is None else PSBT.parse_base64(b, network=pn)).serialize_base64()))
+                    if got != raw:
+                        lost = lost_classes(kv_lost(raw, got)) if isinstance(got, bytes) else repr(got)
+                        V(cls, lost, "identical bytes", f"{net} wallet at {cfg['acct']}, signers {sorted(S)}: parse(network={pn}) via {entry} then serialize does not reproduce the bytes")
+                    else:
+                        res.ok("network/base64 round trip: identical bytes", nontrivial=(label, net, cfg["acct"], pn, entry, tuple(S)))
+        return res
+
+    # =========================================================================================== sign_with_private_keys
+    if form == "swpk":
+        from buidl import pecc as _pecc
+
+        foreign = _pecc.PrivateKey(root_secret(4, toy))
+        if foreign.point.sec() in W.pubkey_lookup:
+            res.skip("toy group: the foreign key coincides with a wallet key")
+            return res
+        for S in (all_subsets if toy else list(dict.fromkeys([frozenset([0]), full]))):
+            orders = list(itertools.permutations(sorted(S))) or [()]
+            for order in orders:
+                for with_foreign in (False, True):
+                    if not S and not with_foreign:
+                        continue
+                    target = state(S)
+                    if target is None:
+                        continue
+
+                    def f():
+                        p = W.create()
+                        keys = [k for i in order for k in W.leaf_private_keys(i)]
+                        if with_foreign:
+                            keys = [foreign] + keys
+                        ret = p.sign_with_private_keys(keys)
+                        return bool(ret), p.serialize()
+
+                    got = attempt(f)
+                    res.transitions += 1
+                    what = f"sign_with_private_keys(leaf keys of {list(order)}{' + a foreign key' if with_foreign else ''})"
+                    if isinstance(got, Rejected) or got[1] != target:
+                        V("sign_with_private_keys/differs", repr(got)[:80], "the PSBT sign() gives for the same signers", f"{what} does not give the canonical PSBT of {sorted(S)}")
+                    elif got[0] != bool(S):
+                        V("sign_with_private_keys/return-value", got[0], bool(S), f"{what} returns the wrong 'signed something' flag")
+                    else:
+                        res.ok("sign_with_private_keys == sign", nontrivial=(label, order, with_foreign))
+        return res
+
+    # =========================================================================================== tx parameters
+    if form == "txparams":
+        check_maps(raw0, "create-update/output-map-differs")
+        for S in list(dict.fromkeys([frozenset(), frozenset(range(need)), full])):
+            raw = state(S)
+            if raw is not None:
+                check_final(raw, len(S), "txparams", f"signers {sorted(S)} fee={cfg['fee']} v{cfg['version']} lt={cfg['locktime']} seq={cfg['sequence']:#x} prevseg={cfg['prevseg']}")
+        return res
+
+    raise RuntimeError(f"unknown form {form}")
+
+
 def engines(tier, seed):
     toy = (211, 199)
     return [
         Engine(f"workflow-toy{toy[0]}", gen_workflow(toy), run_workflow, toy=toy, kind="E2", rule="toy instance (p=211, n=199): script types {P2PKH, P2WPKH, P2SH-P2WPKH} x 1..2 inputs and {P2SH, P2WSH, P2SH-P2WSH} x every 1<=m<=n<=3 (thorough 4) x 1..2 (3) inputs x tx segwit flag: state space = all signer subsets; transitions = sign(i) on parsed/built objects, every signing permutation, combine(a<-b) for every ordered pair of subsets in all four built/parsed flavours; every transition must give the byte-identical canonical PSBT of the target subset; state invariants: idempotent re-serialisation, reference BIP174 reader sees a non-witness unsigned tx with empty scriptSigs, unknown key-values and global xpubs survive, finalize+final_tx reference-valid iff >= m signers, bad partial signatures rejected at load"),
+        Engine(
+            f"forms-toy{toy[0]}",
+            gen_forms(toy),
+            run_forms,
+            toy=toy,
+            kind="E1",
+            rule=FORMS_RULE + " Toy instance (p=211, n=199): every script type; quick: single-key x 2 inputs, multisig 2-of-3 x 1 input and 1-of-2 x 2 inputs (txparams/network on the first shape of each type, fee fixed except two extra fee points); thorough: single-key x 1..3 inputs, every 1<=m<=n<=3 x 1..2 inputs plus 2-of-4, 3-of-4, 2-of-3 x 3 inputs, both segwit flags for 'change', full cross of the transaction parameters; every signer subset is a state.",
+        ),
+        Engine(
+            "forms-real",
+            gen_forms(None),
+            run_forms,
+            kind="E1",
+            rule=FORMS_RULE + " secp256k1: quick: P2WSH 2-of-2 x {noutxo-badsig, utxo-both, utxo-nwu-only} and P2SH-P2WPKH x {change}, 1 input, states {unsigned, all signers}; thorough, states {unsigned, signer 0, all signers}: all six types (multisig 2-of-3), every form (update with lookup subsets of size 0, 3, 4; two transaction-parameter points; three network points).",
+        ),
         Engine("workflow-real", gen_workflow(None), run_workflow, kind="E2", rule="secp256k1: P2WSH 2-of-3 and P2SH 1-of-2 (thorough: 8 configurations incl. single-key types and 3-of-4), same state space / transitions / invariants as the toy engine, sharded 16 ways"),
     ]
